@@ -314,7 +314,7 @@ fn main() {
             ctx.exhaustive(&format!("supermasks-{}", name), "iter-case", "masks of the 16-bit type with at least 6 bits set (every mask in the thorough tier)", exh, masks.iter().filter(|m| m.count_ones() >= 6 || exh).map(move |&bits| Case::Sup { ty, bits }).collect::<Vec<_>>(), run_case);
         }
     }
-    ctx.prop("wide-masks", "iter-case", ctx.n(6_000, 1_500_000), wide_mask().prop_map(|(ty, bits, sub)| if sub { Case::Sub { ty, bits } } else { Case::Sup { ty, bits } }), run_case);
+    ctx.prop_split("wide-masks", "iter-case", ctx.n(6_000, 1_500_000), ctx.parts(), wide_mask().prop_map(|(ty, bits, sub)| if sub { Case::Sub { ty, bits } } else { Case::Sup { ty, bits } }).boxed(), run_case);
     ctx.exhaustive("next-permutation-ternary", "iter-case", "all sequences over {0,1,2} of length <= 7", true, ternary(7).into_iter().map(|data| Case::NextPerm { data }), run_case);
     let pk = ctx.n(7, 8) as usize;
     for k in 0..=pk {
